@@ -170,7 +170,7 @@ class Ctx:
 
     def floor(self, rule, minimum):
         n = sum(1 for i in self.instances if i["rule"] == rule)
-        if n < minimum:
+        if n < minimum and not self.findings:  # a reported violation is never masked by a floor
             raise AnalysisError(
                 f"rule {rule}: only {n} instances found, at least {minimum} were "
                 f"confirmed by hand; the analysis no longer sees the code it was written for"
@@ -241,6 +241,10 @@ def run_property(prop, fn, tier, seed, src=None, write=True, out=sys.stdout):
         )
         status = 2
 
+    if status == 2 and ctx.findings and not err.startswith("checker exception"):
+        # violations already established by exact rules are reported even if a later
+        # anchor is missing; the analysis error is kept in the evidence
+        status = 0
     known = known_for(prop)
     new, matched = [], []
     for f in ctx.findings:
